@@ -95,6 +95,21 @@ def run(c):
                 w = json.loads(json.dumps(base))
                 w["mand"][k] = dict(p=True, iei=0, len=s["max"], v=[(i * 5 + 1) % 256 for i in range(s["max"])])
                 add(m, w, via="body")
+    # two large elements in one message, together beyond 64 KiB: a 16-bit "octets left" or total-length computation wraps
+    # only then (one element at its true maximum leaves every remainder below 2^16)
+    for m, ws in sorted(bym.items()):
+        t = TBL[m]
+        if t["family"] == "ENV": continue
+        slots = [("mand", k, s_) for k, s_ in enumerate(x for x in t["slots"] if x["mand"])] + [("opt", k, s_) for k, s_ in enumerate(x for x in t["slots"] if not x["mand"])]
+        big = [x for x in slots if x[2]["lsz"] == 2 and x[2]["data"] == "buf" and x[2]["max"] >= 65535]
+        var = [x for x in slots if x[2]["lsz"] > 0 and x[2]["data"] == "buf" and x[2]["max"] >= 100]
+        combos = [(a, b, la, lb) for a in big for b in var if a is not b for la in (65400, 65535) for lb in sorted({min(max(b[2]["min"], 133), b[2]["max"]), min(max(b[2]["min"], 1500), b[2]["max"])})]
+        if not thorough: combos = rng.sample(combos, min(len(combos), 2))
+        for a, b, la, lb in combos:
+            w = json.loads(json.dumps(ws[0]))
+            for (kind, k, s_), l in ((a, la), (b, lb)):
+                w[kind][k] = dict(p=True, iei=(s_["iei"] if kind == "opt" else 0), len=l, v=[(i * 11 + l) % 256 for i in range(l)])
+            add(m, w, via="plain" if rng.random() < 0.5 else "body")
     events, hang = run_codec(c, drv, cases)
     if hang is not None:
         c.report("RoundTrip", "hang", "case %d did not return within 20 s" % hang, cases[hang]); events = events[:hang]
